@@ -69,6 +69,7 @@ def check(env, rep, tier):
                            {"file": body["span"]["f"], "line": body["span"]["l"], "fn": HANDLER + name})
         if cfg == "default":
             rep.floor("C11.1", "panic-capable sites analysed from the handler entry points", total_sites, 60)
+        check_reject_keeps_buffer(prog, rep)
         # ---- C11.2 bounded growth
         es = find_body(prog, "block_handler::extending_splice")
         if es is None:
@@ -126,3 +127,66 @@ def check(env, rep, tier):
                            {"file": es["span"]["f"], "line": es["span"]["l"], "fn": es["path"]})
             rep.ob("C11.2", "reject-path", n_err >= 1, "extending_splice has no rejecting path any more (the jump guard is gone)",
                    {"file": es["span"]["f"], "line": es["span"]["l"], "fn": es["path"]})
+
+
+def check_reject_keeps_buffer(prog, rep):
+    """C11.4: at the handler level - when the splice helper rejects a block, the per-key upload buffer that existed
+    when the request arrived is still in the state, the same vector (not taken out, not replaced, not cleared)"""
+    import blockutil
+    from blockutil import Trace
+    cands = blockutil.fns_calling(prog, "block_handler::extending_splice")
+    es = find_body(prog, "block_handler::extending_splice")
+    if len(cands) != 1 or es is None:
+        rep.missing("C11.4", "the (unique) handler function calling extending_splice")
+        return
+    body = cands[0]
+    req_arg = None
+    for i in range(body["arg_count"]):
+        if "request::CoapRequest" in prog.types[body["locals"][i + 1]["ty"]]["s"]:
+            req_arg = i
+    if req_arg is None:
+        rep.missing("C11.4", "request argument of %s" % body["path"])
+        return
+    entry = {}
+
+    def setup(tr, I, st):
+        # the request arrives while an upload is buffered: state.buffer = Some(v0)
+        bi = tr.sf.get("buffer")
+        key = next((k for k in st.cells if isinstance(k, tuple) and k[0] == "h" and str(k[1]).startswith("entry")), None)
+        if key is None or bi is None:
+            return
+        n = I.fresh(st, "len(buffered)", 0, (1 << 63) - 1, ("len", "buffered"))
+        v0 = VecV(Aff.sym(n), None, ("buffered",), I.newgen())
+        cur = I.ensure(st, Place(key, (("f", bi),)), None, "state.buffer")
+        path = cur.path if isinstance(cur, EnumV) else "core::option::Option"
+        I.write(st, Place(key, (("f", bi),)), EnumV(path, {1: StructV([v0])}, getattr(cur, "ty", None)))
+        entry["place"] = Place(key, (("f", bi),))
+        entry["v0"] = v0
+
+        def es_ret(I_, ctx, outs):
+            for s_, rv_ in outs:
+                if isinstance(rv_, EnumV) and list(rv_.variants) == [1]:
+                    s_.ghost[("inj", "splice-rejected")] = True
+        I.return_hooks[es["id"]] = es_ret
+        I.no_join_bodies.add(es["id"])
+    tr = Trace(prog, None, body=body, req_arg=req_arg, setup=setup)
+    site = {"file": body["span"]["f"], "line": body["span"]["l"], "fn": body["path"]}
+    if "v0" not in entry:
+        rep.missing("C11.4", "per-key upload buffer field of the handler state")
+        return
+    n, bad = 0, 0
+    for s, rv in tr.res:
+        if not s.ghost.get(("inj", "splice-rejected")):
+            continue
+        n += 1
+        cur = tr.I.read(s, entry["place"])
+        ok = isinstance(cur, EnumV) and list(cur.variants) == [1] and isinstance(cur.variants[1], StructV)
+        if ok:
+            v = cur.variants[1].fields[0]
+            ok = isinstance(v, VecV) and v.gen == entry["v0"].gen and s.entails_eq(v.len, entry["v0"].len) and "err" in tr.ret_kind(rv)
+        if not ok:
+            bad += 1
+    rep.ob("C11.4", "reject-keeps-buffer", bad == 0 and n >= 1,
+           "when the splice helper rejects a block, %d of %d paths of %s leave the state without the upload buffer it held before "
+           "(taken out of the state, replaced or resized): the blocks received so far are lost" % (bad, n, body["path"]), site,
+           sample={"rule": "C11.4", "rejecting_paths": n, "buffer_lost": bad})
